@@ -328,6 +328,17 @@ func (env *SpecEnv) tr(x *CExpr) (SVal, error) {
 				return SVal{}, err
 			}
 		}
+		if isView(b.Sort) {
+			hi := app("svlen!"+b.Sort, b.T)
+			if x.Args[2] != nil {
+				h, err := env.tr(x.Args[2])
+				if err != nil {
+					return SVal{}, err
+				}
+				hi = h.T
+			}
+			return SVal{T: app("mk!"+b.Sort, app("svarr!"+b.Sort, b.T), app("+", app("svoff!"+b.Sort, b.T), lo.T), app("-", hi, lo.T)), Typ: b.Typ, Sort: b.Sort}, nil
+		}
 		switch b.Sort {
 		case "Str":
 			hi := app("slen", b.T)
@@ -388,7 +399,7 @@ func (env *SpecEnv) tr(x *CExpr) (SVal, error) {
 			if err != nil {
 				return SVal{}, fmt.Errorf("binder %s: %v", b.Name, err)
 			}
-			srt := W.sortOf(t)
+			srt := e.specSort(t)
 			vn := "q!" + sanitize(b.Name)
 			n.binders[b.Name] = SVal{T: vn, Typ: t, Sort: srt}
 			bs = append(bs, fmt.Sprintf("(%s %s)", vn, srt))
@@ -414,7 +425,50 @@ func (env *SpecEnv) tr(x *CExpr) (SVal, error) {
 	return SVal{}, fmt.Errorf("cannot translate %s", x)
 }
 
+// Slice "views": inside specifications a slice is its content, the triple
+// (backing array, offset, length); spec functions therefore do not depend on the
+// element heap and are extensional in the array.
+func (e *Enc) viewSort(el types.Type) string {
+	es := e.W.sortOf(el)
+	n := "SV!" + sanitize(es)
+	e.W.declare(n, fmt.Sprintf("(declare-datatypes ((%s 0)) (((mk!%s (svarr!%s (Array Int %s)) (svoff!%s Int) (svlen!%s Int)))))", n, n, n, es, n, n))
+	return n
+}
+
+func isView(sort string) bool { return strings.HasPrefix(sort, "SV!") }
+
+// specSort: the sort used for a Go type inside specifications.
+func (e *Enc) specSort(t types.Type) string {
+	if sl, ok := types.Unalias(t).Underlying().(*types.Slice); ok {
+		return e.viewSort(sl.Elem())
+	}
+	return e.W.sortOf(t)
+}
+
+func (env *SpecEnv) toView(a SVal) (SVal, error) {
+	if isView(a.Sort) {
+		return a, nil
+	}
+	if a.Sort != "Slice" || a.Typ == nil {
+		return SVal{}, fmt.Errorf("cannot view value of sort %s as a sequence", a.Sort)
+	}
+	el := a.Typ.Underlying().(*types.Slice).Elem()
+	vs := env.e.viewSort(el)
+	c := env.e.W.elemComp(el)
+	return SVal{T: app("mk!"+vs, app("select", env.heapOf(c), app("sbase", a.T)), app("soff", a.T), app("slength", a.T)), Typ: a.Typ, Sort: vs}, nil
+}
+
 func (env *SpecEnv) unifyNil(a, b SVal) (SVal, SVal) {
+	if isView(a.Sort) && b.Sort == "Slice" {
+		if v, err := env.toView(b); err == nil {
+			b = v
+		}
+	}
+	if isView(b.Sort) && a.Sort == "Slice" {
+		if v, err := env.toView(a); err == nil {
+			a = v
+		}
+	}
 	if a.Sort == "nil" && b.Sort != "nil" {
 		a = env.nilOf(b)
 	}
@@ -588,6 +642,10 @@ func (env *SpecEnv) selectField(b SVal, name string) (SVal, error) {
 func (env *SpecEnv) index(b, i SVal) (SVal, error) {
 	e := env.e
 	W := e.W
+	if isView(b.Sort) {
+		el := b.Typ.Underlying().(*types.Slice).Elem()
+		return SVal{T: app("select", app("svarr!"+b.Sort, b.T), app("+", app("svoff!"+b.Sort, b.T), i.T)), Typ: el, Sort: W.sortOf(el)}, nil
+	}
 	switch b.Sort {
 	case "Str":
 		return SVal{T: app("sat", b.T, i.T), Typ: types.Typ[types.Uint8], Sort: "Int"}, nil
@@ -648,6 +706,9 @@ func (env *SpecEnv) call(x *CExpr) (SVal, error) {
 		if err != nil {
 			return SVal{}, err
 		}
+		if isView(a.Sort) {
+			return SVal{T: app("svlen!"+a.Sort, a.T), Typ: intT, Sort: "Int"}, nil
+		}
 		switch a.Sort {
 		case "Str":
 			return SVal{T: app("slen", a.T), Typ: intT, Sort: "Int"}, nil
@@ -696,7 +757,7 @@ func (env *SpecEnv) call(x *CExpr) (SVal, error) {
 			oldAlloc = v
 		}
 		W.needRoot()
-		return SVal{T: sAnd(app(">", app("root", t), oldAlloc), app("<=", app("root", t), env.heapOf(e.allocComp()))), Typ: boolT, Sort: "Bool"}, nil
+		return SVal{T: app(">", app("root", t), oldAlloc), Typ: boolT, Sort: "Bool"}, nil
 	case "allocated":
 		a, err := argv(0)
 		if err != nil {
@@ -739,6 +800,12 @@ func (env *SpecEnv) call(x *CExpr) (SVal, error) {
 		}
 		bx, _, _ := W.boxFns(a.Typ)
 		return SVal{T: app(bx, a.T), Sort: "Iface"}, nil
+	case "view":
+		a, err := argv(0)
+		if err != nil {
+			return SVal{}, err
+		}
+		return env.toView(a)
 	case "int": // conversions are identities on mathematical integers
 		return argv(0)
 	case "str1": // one-byte string
@@ -769,7 +836,13 @@ func (env *SpecEnv) call(x *CExpr) (SVal, error) {
 	if sf == nil {
 		return SVal{}, fmt.Errorf("unknown function %s", x.Name)
 	}
-	sig, err := e.specSignature(sf)
+	var sig *specSig
+	var err error
+	if env.curSpec != nil {
+		sig, err = e.specShell(sf)
+	} else {
+		sig, err = e.specSignature(sf)
+	}
 	if err != nil {
 		return SVal{}, err
 	}
@@ -784,6 +857,11 @@ func (env *SpecEnv) call(x *CExpr) (SVal, error) {
 		}
 		if a.Sort == "nil" {
 			a = env.nilOf(sig.params[i])
+		}
+		if isView(sig.params[i].Sort) && a.Sort == "Slice" {
+			if a, err = env.toView(a); err != nil {
+				return SVal{}, err
+			}
 		}
 		if a.Sort != sig.params[i].Sort {
 			return SVal{}, fmt.Errorf("%s: argument %d has sort %s, expected %s", sf.Name, i, a.Sort, sig.params[i].Sort)
@@ -828,7 +906,8 @@ func (env *SpecEnv) methodCall(x *CExpr) (SVal, error) {
 // ---------------------------------------------------------------------------
 // Spec functions
 
-func (e *Enc) specSignature(sf *SpecFn) (*specSig, error) {
+// specShell creates the signature (without body) of a spec function.
+func (e *Enc) specShell(sf *SpecFn) (*specSig, error) {
 	if s, ok := e.specSigs[sf.Name]; ok {
 		return s, nil
 	}
@@ -839,67 +918,94 @@ func (e *Enc) specSignature(sf *SpecFn) (*specSig, error) {
 		if err != nil {
 			return nil, fmt.Errorf("spec %s param %s: %v", sf.Name, p.Name, err)
 		}
-		s.params = append(s.params, SVal{T: "a!" + sanitize(p.Name), Typ: t, Sort: e.W.sortOf(t)})
+		s.params = append(s.params, SVal{T: "a!" + sanitize(p.Name), Typ: t, Sort: e.specSort(t)})
 	}
 	rt, err := e.evalType(sf.Ret, pkg)
 	if err != nil {
 		return nil, fmt.Errorf("spec %s result: %v", sf.Name, err)
 	}
-	s.ret, s.retS = rt, e.W.sortOf(rt)
+	s.ret, s.retS = rt, e.specSort(rt)
 	e.specSigs[sf.Name] = s
+	return s, nil
+}
+
+// translateSpecBody translates the body once with the current read sets of callees.
+// Returns whether the read set changed.
+func (e *Enc) translateSpecBody(s *specSig) (bool, error) {
+	sf := s.fn
 	if sf.Body == nil {
-		return s, nil
+		s.state = 2
+		return false, nil
 	}
-	// compute read set: iterate translation until the set of reads is stable
-	for iter := 0; iter < 6; iter++ {
-		reads := map[string]bool{}
-		for _, r := range s.reads {
-			reads[r] = true
-		}
-		env := e.newSpecEnv(nil, nil)
-		env.pkg = pkg
-		env.curSpec = s
-		env.heapFn = func(c *Comp, old bool) string {
-			reads[c.Name] = true
-			return "h!" + c.Name
-		}
-		for i, p := range sf.Params {
-			env.binders[p.Name] = s.params[i]
-		}
-		body, err := env.tr(sf.Body)
-		if err != nil {
-			return nil, fmt.Errorf("spec %s (%s): %v", sf.Name, sf.Src, err)
-		}
-		if body.Sort == "nil" {
-			body = env.nilOf(SVal{Sort: s.retS})
-		}
-		if body.Sort != s.retS {
-			return nil, fmt.Errorf("spec %s: body has sort %s, declared %s", sf.Name, body.Sort, s.retS)
-		}
-		s.body = body.T
-		// reads of callees
-		for c := range s.calls {
-			if cs := e.specSigs[c]; cs != nil {
-				for _, r := range cs.reads {
-					reads[r] = true
-				}
+	reads := map[string]bool{}
+	env := e.newSpecEnv(nil, nil)
+	env.pkg = e.P.tpkgs[sf.Pkg]
+	env.curSpec = s
+	env.heapFn = func(c *Comp, old bool) string {
+		reads[c.Name] = true
+		return "h!" + c.Name
+	}
+	for i, p := range sf.Params {
+		env.binders[p.Name] = s.params[i]
+	}
+	body, err := env.tr(sf.Body)
+	if err != nil {
+		return false, fmt.Errorf("spec %s (%s): %v", sf.Name, sf.Src, err)
+	}
+	if body.Sort == "nil" {
+		body = env.nilOf(SVal{Sort: s.retS})
+	}
+	if body.Sort != s.retS {
+		return false, fmt.Errorf("spec %s: body has sort %s, declared %s", sf.Name, body.Sort, s.retS)
+	}
+	s.body = body.T
+	for c := range s.calls {
+		if cs := e.specSigs[c]; cs != nil {
+			for _, r := range cs.reads {
+				reads[r] = true
 			}
 		}
-		var rs []string
-		for r := range reads {
-			rs = append(rs, r)
+	}
+	var rs []string
+	for r := range reads {
+		rs = append(rs, r)
+	}
+	sort.Strings(rs)
+	changed := strings.Join(rs, ",") != strings.Join(s.reads, ",")
+	s.reads = rs
+	s.state = 2
+	return changed, nil
+}
+
+// specSignature returns the final signature (including the heap components read)
+// of a spec function; it closes over everything reachable from it.
+func (e *Enc) specSignature(sf *SpecFn) (*specSig, error) {
+	if s, ok := e.specSigs[sf.Name]; ok && s.state == 2 {
+		return s, nil
+	}
+	if _, err := e.specShell(sf); err != nil {
+		return nil, err
+	}
+	for round := 0; round < 20; round++ {
+		changed := false
+		var names []string
+		for n := range e.specSigs {
+			names = append(names, n)
 		}
-		sort.Strings(rs)
-		if strings.Join(rs, ",") == strings.Join(s.reads, ",") && iter > 0 {
-			break
+		sort.Strings(names)
+		before := len(names)
+		for _, n := range names {
+			ch, err := e.translateSpecBody(e.specSigs[n])
+			if err != nil {
+				return nil, err
+			}
+			changed = changed || ch
 		}
-		changed := strings.Join(rs, ",") != strings.Join(s.reads, ",")
-		s.reads = rs
-		if !changed {
+		if !changed && len(e.specSigs) == before {
 			break
 		}
 	}
-	return s, nil
+	return e.specSigs[sf.Name], nil
 }
 
 // specDefs renders all spec functions used so far as one define-funs-rec block.
@@ -912,49 +1018,6 @@ func (e *Enc) specDefs() string {
 		names = append(names, n)
 	}
 	sort.Strings(names)
-	// re-translate bodies now that all read sets are final
-	for round := 0; round < 3; round++ {
-		for _, n := range names {
-			s := e.specSigs[n]
-			if s.fn.Body == nil {
-				continue
-			}
-			delete(e.specSigs, n)
-			old := s.reads
-			e.specSigs[n] = s
-			// re-run body translation with final reads of callees
-			env := e.newSpecEnv(nil, nil)
-			env.pkg = e.P.tpkgs[s.fn.Pkg]
-			env.curSpec = s
-			reads := map[string]bool{}
-			for _, r := range old {
-				reads[r] = true
-			}
-			env.heapFn = func(c *Comp, old bool) string { reads[c.Name] = true; return "h!" + c.Name }
-			for i, p := range s.fn.Params {
-				env.binders[p.Name] = s.params[i]
-			}
-			if body, err := env.tr(s.fn.Body); err == nil {
-				if body.Sort == "nil" {
-					body = env.nilOf(SVal{Sort: s.retS})
-				}
-				s.body = body.T
-			}
-			for c := range s.calls {
-				if cs := e.specSigs[c]; cs != nil {
-					for _, r := range cs.reads {
-						reads[r] = true
-					}
-				}
-			}
-			var rs []string
-			for r := range reads {
-				rs = append(rs, r)
-			}
-			sort.Strings(rs)
-			s.reads = rs
-		}
-	}
 	var decls, bodies []string
 	var ufs []string
 	for _, n := range names {
